@@ -62,6 +62,52 @@ type c16Client struct {
 	mode    string   // "est" | "rel": which of Establish / ReleaseObjects issues package-object calls
 	refKeys []string // release candidates
 	seen    map[string]int
+	fired   map[int]bool // third-party writes of the step already performed (index into step.TP)
+	applied []c16Act     // ... in the order they were performed
+}
+
+// thirdParty performs the step's third-party writes scheduled right before the real
+// write of object idx. It runs inside simstore's Before-the-call window (the plan
+// callback: after the call is counted, before it is evaluated against the store),
+// with c.mu held, so it is atomic with respect to the establisher's goroutines.
+func (c *c16Client) thirdParty(idx int) {
+	for k, a := range c.step.TP {
+		if a.I != idx || c.fired[k] {
+			continue
+		}
+		c.fired[k] = true
+		t := c16Build(a.Key, a.Body)
+		_, name := c16SplitKey(a.Key)
+		c.Store.Remove(t.GetObjectKind().GroupVersionKind().GroupKind(), "", name)
+		if a.Act == "put" {
+			t.SetOwnerReferences(c16MkRefs(a.Owners))
+			c.Store.Seed(t)
+		}
+		c.applied = append(c.applied, a)
+	}
+}
+
+// c16ApplyActs is the store view `objs` after the third-party writes `acts`.
+func c16ApplyActs(objs []c16Obj, acts []c16Act) []c16Obj {
+	out := append([]c16Obj{}, objs...)
+	for _, a := range acts {
+		kept := out[:0:0]
+		for _, o := range out {
+			if o.Key != a.Key {
+				kept = append(kept, o)
+			}
+		}
+		out = kept
+		if a.Act == "put" {
+			ow := a.Owners
+			if ow == nil {
+				ow = []c16Ref{}
+			}
+			out = append(out, c16Obj{Key: a.Key, Body: a.Body, Owners: ow})
+		}
+	}
+	sort.Slice(out, func(i, j int) bool { return out[i].Key < out[j].Key })
+	return out
 }
 
 func c16IsPkgKey(key string) bool {
@@ -200,6 +246,9 @@ func (c *c16Client) plan(ci CallInfo) Outcome {
 		}
 	}
 	c.calls = append(c.calls, c16Call{Verb: ci.Verb, Key: key, Dry: ci.DryRun, Body: c.pending, Idx: idx, Phase: phase, Mode: c.mode})
+	if phase == "real" && c.mode == "est" && idx >= 0 {
+		c.thirdParty(idx)
+	}
 	if ci.IsWrite() {
 		for _, b := range s.RejBodies {
 			if b == c.pending {
@@ -368,8 +417,8 @@ func c16FirstOrder(calls []c16Call, mode, phase string, n int) []int {
 	return out
 }
 
-func c16RunStep(st *Store, s *c16Step) (c16StepObs, []c16Call) {
-	cl := &c16Client{Store: st, step: s, seen: map[string]int{}, pending: -1, mode: "est"}
+func c16RunStep(st *Store, s *c16Step) (c16StepObs, []c16Call, []c16Act) {
+	cl := &c16Client{Store: st, step: s, seen: map[string]int{}, fired: map[int]bool{}, pending: -1, mode: "est"}
 	st.Revive()
 	st.Log = nil
 	conc := s.Conc
@@ -505,7 +554,7 @@ func c16RunStep(st *Store, s *c16Step) (c16StepObs, []c16Call) {
 	if s.Op == "release" {
 		s.VOrder, s.EOrder = []int{}, []int{}
 	}
-	return obs, cl.calls
+	return obs, cl.calls, cl.applied
 }
 
 func c16Run(scn *c16Scn) (c16Obs, []Mon) {
@@ -519,10 +568,15 @@ func c16Run(scn *c16Scn) (c16Obs, []Mon) {
 		s := &scn.Steps[i]
 		before := c16Snapshot(st)
 		refsBefore := c16StatusRefs(st, s.Parent.UID)
-		so, calls := c16RunStep(st, s)
+		so, calls, applied := c16RunStep(st, s)
 		obs.Steps = append(obs.Steps, so)
-		mons = append(mons, c16Monitor(s, before, refsBefore, so, calls)...)
+		mons = append(mons, c16Monitor(s, before, refsBefore, so, calls, applied)...)
 		releasing := s.Op == "release" || (s.Op == "reconcile" && !s.Control && len(refsBefore) > 0)
+		// an object the third party deleted or replaced is the third party's from now on
+		for _, a := range applied {
+			delete(established, a.Key)
+		}
+		before = c16ApplyActs(before, applied)
 		if pkg, ok := c16PkgRef(s.Parent); ok && pkg.UID != s.Parent.UID && !releasing {
 			for _, a := range so.Store {
 				b := c16Find(before, a.Key)
@@ -605,13 +659,27 @@ func c16InStrs(xs []string, x string) bool {
 	return false
 }
 
-// c16Monitor evaluates the property itself on the real run of one step.
-func c16Monitor(s *c16Step, before []c16Obj, refsBefore []c16XRef, so c16StepObs, calls []c16Call) []Mon {
+// c16Monitor evaluates the property itself on the real run of one step. `applied`
+// are the third-party writes that happened during the step, in order: what the
+// REVISION did is the difference between `after` and the pre-state with those
+// writes applied (a revision can never write over a third-party put - its update
+// carries the resourceVersion it validated - so the third party's last write to a
+// key is final unless the revision creates the object anew after a deletion).
+func c16Monitor(s *c16Step, before0 []c16Obj, refsBefore []c16XRef, so c16StepObs, calls []c16Call, applied []c16Act) []Mon {
 	var mons []Mon
 	add := func(sig, why string) { mons = append(mons, Mon{Sig: sig, Why: why}) }
 	if strings.HasPrefix(so.Result, "panic") {
 		add("C16:panic", so.Result)
 		return mons
+	}
+	before := c16ApplyActs(before0, applied)
+	touched := map[string]bool{}
+	for _, a := range applied {
+		touched[a.Key] = true
+	}
+	tpNote := ""
+	if len(applied) > 0 {
+		tpNote = " (third-party writes during the step: " + mustJSON(applied) + ")"
 	}
 	after := so.Store
 	pkg, hasPkg := c16PkgRef(s.Parent)
@@ -634,17 +702,25 @@ func c16Monitor(s *c16Step, before []c16Obj, refsBefore []c16XRef, so c16StepObs
 	}
 	// which of ReleaseObjects / Establish is expected to touch package objects?
 	releasing := s.Op == "release" || (s.Op == "reconcile" && !s.Control && len(refsBefore) > 0)
+	if !s.Control && s.Op != "release" {
+		// an inactive revision never issues a (non-dry-run) create, whoever interferes
+		for _, c := range calls {
+			if c.Verb == "create" && !c.Dry && c.Mode != "" {
+				add("C16:inactive-created", "an inactive revision issued a create of "+c.Key+tpNote)
+			}
+		}
+	}
 	if s.Op == "reconcile" && !s.Control {
 		// an inactive revision, whatever path the reconciler takes
 		for _, a := range after {
 			b := c16Find(before, a.Key)
 			if b == nil {
-				add("C16:inactive-created", a.Key+" was created while reconciling an inactive revision")
+				add("C16:inactive-created", a.Key+" was created while reconciling an inactive revision"+tpNote)
 				continue
 			}
 			if me := c16HasUID(&a, s.Parent.UID); me != nil && me.Ctrl == "true" {
 				if mb := c16HasUID(b, s.Parent.UID); mb == nil || mb.Ctrl != "true" {
-					add("C16:inactive-controls", a.Key+": an inactive revision became its controller")
+					add("C16:inactive-controls", a.Key+": an inactive revision became its controller"+tpNote)
 				}
 			}
 			if b.Body != a.Body {
@@ -695,7 +771,7 @@ func c16Monitor(s *c16Step, before []c16Obj, refsBefore []c16XRef, so c16StepObs
 	// (1) all-or-nothing, decided from the pre-state only
 	blocked := ""
 	for _, d := range s.Objs {
-		cur := c16Find(before, d.Key)
+		cur := c16Find(before0, d.Key)
 		if s.Control && cur != nil {
 			for _, r := range cur.Owners {
 				if r.Ctrl == "true" && r.UID != s.Parent.UID && !(hasPkg && r.UID == pkg.UID) {
@@ -725,7 +801,7 @@ func c16Monitor(s *c16Step, before []c16Obj, refsBefore []c16XRef, so c16StepObs
 		if so.Result == "ok" {
 			add("C16:established-despite-blocked", blocked+" but Establish reported success")
 		}
-		if len(so.Log) > 0 || mustJSON(before) != mustJSON(after) {
+		if len(so.Log) > 0 || mustJSON(before0) != mustJSON(after) {
 			add("C16:partial-establish", blocked+" but objects were created or modified: "+mustJSON(so.Log))
 		}
 	}
@@ -762,7 +838,7 @@ func c16Monitor(s *c16Step, before []c16Obj, refsBefore []c16XRef, so c16StepObs
 		b := c16Find(before, a.Key)
 		if b == nil {
 			if !s.Control {
-				add("C16:inactive-created", a.Key+" was created by an inactive revision")
+				add("C16:inactive-created", a.Key+" was created by an inactive revision"+tpNote)
 			}
 		}
 		if !changed(a) {
@@ -777,7 +853,7 @@ func c16Monitor(s *c16Step, before []c16Obj, refsBefore []c16XRef, so c16StepObs
 			if me == nil {
 				add("C16:inactive-not-owner", a.Key+" written by an inactive revision which is not an owner")
 			} else if me.Ctrl == "true" {
-				add("C16:inactive-controls", a.Key+" written by an inactive revision which is its controller")
+				add("C16:inactive-controls", a.Key+" written by an inactive revision which is its controller"+tpNote)
 			}
 			if b != nil && b.Body != a.Body {
 				add("C16:inactive-modified-content", a.Key+" content changed by an inactive revision")
@@ -801,6 +877,9 @@ func c16Monitor(s *c16Step, before []c16Obj, refsBefore []c16XRef, so c16StepObs
 	// (4) a successful establish covers every object of the package
 	if so.Result == "ok" {
 		for _, d := range s.Objs {
+			if touched[d.Key] {
+				continue // success does not cover an object a third party deleted or replaced meanwhile
+			}
 			a := c16Find(after, d.Key)
 			if s.Control {
 				if a == nil {
@@ -827,7 +906,7 @@ var (
 )
 
 func c16NewStep(op string, p c16Parent) c16Step {
-	return c16Step{Op: op, Parent: p, Objs: []c16Des{}, Refs: []c16XRef{}, Faults: []c16Fault{}, RejBodies: []int{}, RejKeys: []string{}, Conc: 1, VOrder: []int{}, EOrder: []int{}, Ran: []bool{}}
+	return c16Step{Op: op, Parent: p, Objs: []c16Des{}, Refs: []c16XRef{}, Faults: []c16Fault{}, RejBodies: []int{}, RejKeys: []string{}, Conc: 1, TP: []c16Act{}, VOrder: []int{}, EOrder: []int{}, Ran: []bool{}}
 }
 
 func c16GenParent(r *Rng, uid int) c16Parent {
@@ -905,6 +984,36 @@ func c16GenFaults(r *Rng, n int, phases []string, crash bool) []c16Fault {
 		fs = append(fs, c16Fault{I: r.Intn(n), Phase: Pick(r, phases), Out: Pick(r, outs)})
 	}
 	return fs
+}
+
+// c16GenTP draws third-party writes for the establish phase of a step: mostly
+// against package objects that exist (validated, then gone / re-created / re-owned
+// right before their real write), sometimes against another object of the package
+// while object i is being written (interference between the individual writes).
+func c16GenTP(r *Rng, s *c16Step, store []c16Obj, me int) []c16Act {
+	n := len(s.Objs)
+	acts := []c16Act{}
+	if n == 0 {
+		return acts
+	}
+	for k, m := 0, r.Range(1, 2); k < m; k++ {
+		i := r.Intn(n)
+		for try := 0; try < 3 && store != nil && c16Find(store, s.Objs[i].Key) == nil; try++ {
+			i = r.Intn(n) // prefer an object that exists: its goroutine issues an update
+		}
+		key := s.Objs[i].Key
+		if r.Chance(1, 4) {
+			key = s.Objs[r.Intn(n)].Key
+		}
+		a := c16Act{I: i, Act: "del", Key: key, Owners: []c16Ref{}}
+		if r.Chance(2, 5) {
+			a.Act = "put"
+			a.Body = r.Range(1, 4)
+			a.Owners, _ = c16GenOwners(r, me)
+		}
+		acts = append(acts, a)
+	}
+	return acts
 }
 
 func c16StateNames(m map[string]bool) string {
@@ -989,6 +1098,21 @@ func c16GenEstablish(r *Rng, store *[]c16Obj) (c16Step, string) {
 			fk = "fault-tls"
 		}
 	}
+	// third-party interference with the establish phase; more often for an inactive
+	// revision whose objects exist (it must neither create nor take control, whatever happens)
+	exists := false
+	for _, d := range s.Objs {
+		if c16Find(*store, d.Key) != nil {
+			exists = true
+		}
+	}
+	tp := ""
+	if (!s.Control && exists && r.Chance(1, 2)) || r.Chance(1, 4) {
+		s.TP = c16GenTP(r, &s, *store, me)
+		if len(s.TP) > 0 {
+			tp = "+tp"
+		}
+	}
 	if tls == "missing" || tls == "empty" {
 		fk = "tls-" + tls
 	}
@@ -1009,9 +1133,9 @@ func c16GenEstablish(r *Rng, store *[]c16Obj) (c16Step, string) {
 		f = "faulty"
 	}
 	if dup {
-		return s, fmt.Sprintf("est/%s/duplicate-object", role)
+		return s, fmt.Sprintf("est/%s/duplicate-object%s", role, tp)
 	}
-	return s, fmt.Sprintf("est/%s/pre=%s/%s", role, c16Focus(states), f)
+	return s, fmt.Sprintf("est/%s/pre=%s/%s%s", role, c16Focus(states), f, tp)
 }
 
 // c16Focus names the scenario after the most telling pre-existing state it contains
@@ -1132,7 +1256,7 @@ func c16GenHistory(r *Rng) (c16Scn, string) {
 		desired[20] = true
 	}
 	n := r.Range(3, 9)
-	faulty, racing, rollback := false, false, false
+	faulty, racing, rollback, interf := false, false, false, false
 	for len(scn.Steps) < n {
 		switch r.Intn(5) {
 		case 0: // upgrade or rollback: the package manager flips the desired states
@@ -1163,6 +1287,11 @@ func c16GenHistory(r *Rng) (c16Scn, string) {
 			s.RejKeys = append(s.RejKeys, Pick(r, c16HKeys))
 			faulty = true
 		}
+		if r.Chance(1, 4) {
+			// a third party deletes / re-creates / re-owns objects while this revision establishes
+			s.TP = c16GenTP(r, &s, nil, u)
+			interf = true
+		}
 		scn.Steps = append(scn.Steps, s)
 	}
 	kind := "upgrade"
@@ -1179,6 +1308,9 @@ func c16GenHistory(r *Rng) (c16Scn, string) {
 	cls := fmt.Sprintf("hist/%s/%s", kind, f)
 	if kind != "upgrade" {
 		cls = "hist/" + kind
+	}
+	if interf {
+		cls += "+tp"
 	}
 	_ = other
 	return scn, cls
